@@ -166,6 +166,10 @@ pub fn catch<T>(f: impl FnOnce() -> T) -> Result<T, PanicInfo> {
     match std::panic::catch_unwind(std::panic::AssertUnwindSafe(f)) {
         | Ok(v) => Ok(v),
         | Err(payload) => {
+            // salsa cancels readers by unwinding with a `Cancelled` payload: not a panic, let it travel
+            if payload.is::<salsa::Cancelled>() {
+                std::panic::resume_unwind(payload);
+            }
             let info = LAST_PANIC.with(|slot| slot.borrow_mut().take());
             Err(info.unwrap_or_else(|| {
                 let msg = if let Some(s) = payload.downcast_ref::<&str>() {
